@@ -67,17 +67,18 @@ def parseLocSpec (s : Str) : Option LocSpec :=
       | none => none
     | none => none
 
+/-- the `match parts.len()` table of `TrblLength::from_str`: CSS order -/
+def trblOfList : List Length → Option TrblLength
+  | [a] => some ⟨a, a, a, a⟩
+  | [a, b] => some ⟨a, b, a, b⟩
+  | [a, b, c] => some ⟨a, b, c, b⟩
+  | [a, b, c, d] => some ⟨a, b, c, d⟩
+  | _ => none
+
 /-- `TrblLength::from_str` -/
 def parseTrbl (s : Str) : Option TrblLength :=
   let parts := (attrSplit s).map parseLength
-  if parts.any Option.isNone then none
-  else
-    match parts.filterMap id with
-    | [a] => some ⟨a, a, a, a⟩
-    | [a, b] => some ⟨a, b, a, b⟩
-    | [a, b, c] => some ⟨a, b, c, b⟩
-    | [a, b, c, d] => some ⟨a, b, c, d⟩
-    | _ => none
+  if parts.any Option.isNone then none else trblOfList (parts.filterMap id)
 
 /-- `parse_el_loc`: elref + optional `@loc` (no whitespace allowed) -/
 def parseElLoc (s : Str) : Except Err (ElRef × Option LocSpec) :=
